@@ -37,6 +37,10 @@ class Boom(RuntimeError):
     pass
 
 
+class NoArgsError(Exception):
+    """An exception raised without arguments (like a bare assert or `raise MyError`)."""
+
+
 def _mods():
     import gpyreg
     import pybads.bads.bads as bb
@@ -67,7 +71,7 @@ class Patch:
         self.undo = []
 
 
-FAULT_KINDS = ["raise_rt", "raise_key", "nan", "pinf", "ninf", "cplx", "vec", "none"]
+FAULT_KINDS = ["raise_rt", "raise_key", "raise_noargs", "raise_intarg", "nan", "pinf", "ninf", "cplx", "vec", "list3", "tuple2", "none"]
 FAULT_KINDS_SPEC = ["notuple", "tuple3", "sd0", "sdneg", "sdnan", "sdinf"]
 
 
@@ -193,8 +197,13 @@ def make_target(run):
                 raise Boom("injected at call %d" % k)
             if kind == "raise_key":
                 raise InjectedTargetError("injected at call %d" % k)
+            if kind == "raise_noargs":
+                raise NoArgsError()
+            if kind == "raise_intarg":
+                raise InjectedTargetError(7)
             bad = {"nan": np.nan, "pinf": np.inf, "ninf": -np.inf, "cplx": 1 + 2j,
-                   "vec": np.array([1.0, 2.0]), "none": None}
+                   "vec": np.array([1.0, 2.0]), "list3": [float(val) if np.isscalar(val) else 1.0, 0.5, 0.25],
+                   "tuple2": (float(val) if np.isscalar(val) else 1.0, 0.5), "none": None}
             if kind in bad:
                 return (bad[kind], sd) if mode == "spec" else bad[kind]
             if kind == "notuple":
@@ -260,7 +269,7 @@ def install(run, patch):
         finally:
             run.n_init = len(run.calls)
             run.np_init = int(np.sum(self.function_logger.X_flag))
-            run.phase = "loop"
+            run.phase = "gpinit"
 
     patch.set(BADS, "_init_mesh_", init_mesh)
 
@@ -711,6 +720,17 @@ def summarize(run):
         fl = run.bads.function_logger
         out["fl_func_count"] = int(fl.func_count)
         out["fl_Xn"] = int(fl.Xn)
+        if run.job.get("check_c10"):
+            n = fl.Xn + 1
+            bad = None
+            if n > 0 and not (np.all(np.isfinite(fl.Y[:n])) and np.all(np.isreal(fl.Y[:n]))):
+                bad = "non-finite value in the log"
+            if fl.noise_flag and n > 0 and fl.he_noise_flag and not np.all(np.isfinite(fl.S[:n]) & (fl.S[:n] > 0)):
+                bad = "invalid SD in the log"
+            nvalid = len(calls) - (1 if run.injected else 0)
+            if n > nvalid:
+                bad = "more recorded rows (%d) than valid calls (%d)" % (n, nvalid)
+            out["log_check"] = bad
     oc = dict(n=len(calls), exc=run.exc_sig, msg=(out["result"] or {}).get("message"),
               polls=out["n_polls"], searches=out["n_searches"],
               ks=[p["k"] for p in run.probes][-6:], sa="".join(p["lab"]["sa"][0] for p in run.probes)[:40])
